@@ -20,7 +20,7 @@ META = {
         'part of the input (typed alias analysis; fresh copies list()/dict()/sorted()/comprehensions break the alias); R4 every '
         'open() on the add route is read-only, the decompression temp file is unlinked in a finally and tar contents are '
         'extracted into a TemporaryDirectory context; R6 the package route and the single-file route recognise a resource by the '
-        'same content recognisers and neither adds a condition on the file name (guard sets of the accepting effects). R7 the pre-scan that the file routes use agrees with the parser (analysis of C20-R4), so the file routes and the in-memory route decide the same skips. R8 the archive check refuses a tar member exactly when TarInfo.isfile() / isdir() both fail or its path is absolute / contains `..` (effect summary of _check_tar: old-format regular files are files). R9 a directory with the package layout is a package (tested before the collection layout); the temporary file of a decompressed resource is closed before its path is handed out.'),
+        'same content recognisers and neither adds a condition on the file name (guard sets of the accepting effects). R7 the pre-scan that the file routes use agrees with the parser (analysis of C20-R4), so the file routes and the in-memory route decide the same skips. R8 the archive check refuses a tar member exactly when TarInfo.isfile() / isdir() both fail or its path is absolute / contains `..` (effect summary of _check_tar: old-format regular files are files). R9 a directory with the package layout is a package (tested before the collection layout); the temporary file of a decompressed resource is closed before its path is handed out. R10 _read_header decodes nothing before the XML declaration matched (is_lmf answers False through LMFError for any other file).'),
     'decides': ['sibling entry points', 'skip dominance', 'input never mutated', 'source files opened read-only / temp cleanup',
                 'resources recognised by content on every route'],
     'not_decided': ['equality of stored content across supply routes'],
